@@ -63,7 +63,7 @@ def observe(model, pop, src):
     return out
 
 
-def poly_history(hid, rng):
+def poly_history(hid, rng, large=None):
     """a closed history WITHOUT mating on an unphased matrix of another ploidy (dosages 0..P): the founder population and two
     nested sub-populations taken with select_taxa / select (selection only: limits tighten, lost alleles stay lost)"""
     from pybrops.model.gmod.DenseAdditiveLinearGenomicModel import DenseAdditiveLinearGenomicModel
@@ -82,6 +82,21 @@ def poly_history(hid, rng):
             Z[:, l] = 0
         elif r < 0.5:
             Z[:, l] = P // 2 if P > 1 else rng.randrange(2)       # every individual carries half of its copies
+    if large:
+        # a very large population in which an allele survives in ONE individual (as one copy): the locus is not fixed, the carrier's
+        # value lies inside the limits, and once the carrier and a few others are selected the limits do not widen
+        n = large; P = 2; L = max(L, 4)
+        if u.shape[0] < L:
+            u = np.vstack([u, np.array([[rng.choice([-2, 1, 3]) for _ in range(T)] for _ in range(L - u.shape[0])], dtype=float)])
+            model = DenseAdditiveLinearGenomicModel(beta=beta, u_misc=None, u_a=u, trait=np.array(["t%d" % t for t in range(T)], dtype=object))
+        for l in range(L):
+            if u[l].any() == False:
+                u[l, 0] = rng.choice([-2, 2])
+        nrs = np.random.RandomState(rng.randrange(2 ** 31))
+        Z = nrs.randint(0, 3, size=(n, L)).astype("int8")
+        Z[:, 0] = 2; Z[rng.randrange(n), 0] = 1           # the other allele survives as a single copy
+        Z[:, 1] = 0; Z[rng.randrange(n), 1] = 1           # the allele itself is present as a single copy
+        Z[:, 2] = rng.choice([0, 2])                       # fixed
     pop = DenseGenotypeMatrix(Z, taxa=np.array(["x%03d" % i for i in range(n)], dtype=object), taxa_grp=np.zeros(n, dtype="int64"), ploidy=P)
     gens = []
     for step in range(3):
@@ -98,6 +113,9 @@ def poly_history(hid, rng):
             break
         k = rng.randrange(1, pop.ntaxa)
         ix = np.array(sorted(rng.sample(range(pop.ntaxa), k)))
+        if large and step == 0:
+            carriers = sorted(set(int(x) for x in np.flatnonzero((np.asarray(pop.mat)[:, 0] == 1) | (np.asarray(pop.mat)[:, 1] == 1))))
+            ix = np.array(sorted(set(carriers + rng.sample(range(pop.ntaxa), 4))))
         pop = pop.select_taxa(ix) if step == 0 else pop.select(ix, axis=pop.taxa_axis)
     return {"id": hid, "u": u.astype(int).tolist(), "beta": [int(x) for x in beta[0]], "nfixed": 1, "gens": gens}
 
@@ -183,6 +201,11 @@ def run(ctx):
             allc.append(poly_history(len(allc) + 1, rng))
         except Exception as e:
             ctx.violation("polyploid-selection-history:exception", "%s: %s" % (type(e).__name__, e), {})
+    for big in ((60000, 150000) if thorough else (rng.choice([60000, 120000]),)):
+        try:
+            allc.append(poly_history(len(allc) + 1, rng, large=big))
+        except Exception as e:
+            ctx.violation("large-population-selection-history:exception", "%s: %s" % (type(e).__name__, e), {})
     verd = cases.validate(ctx, "SelLimits_Trace", "SelLimits_Trace.cfg", allc, "SelLimits_Trace", chunk=4, procs=14)
     ctx.traces += len(allc)
     for c in allc:
